@@ -125,34 +125,33 @@ def c15_3(ctx):
     _refcheck(ctx, CF, "ChainFinder.find_ancestral_path", "cf_find_ancestral_path", "common-ancestor")
     _refcheck(ctx, CF, "ChainFinder.maximum_path", "cf_maximum_path", "maximum-path")
     _refcheck(ctx, CF, "ChainFinder.all_chains_ending_at", "cf_all_chains_ending_at", "candidates")
-    # a negative index counts back from the tip of the WHOLE chain (locked prefix + unlocked part): on every path taken for
-    # index < 0, wherever the index is used as a position it occurs together with self.length()
-    ti = ctx.func(BC, "BlockChain.tuple_for_index")
-    ip = ti.params()[1] if len(ti.params()) > 1 else "index"
-    wt = sym.walk(ctx, ti, int_names=lambda t: True)
-    neg = ("op", "%s < 0" % ip)
-    negs = [e for e in wt.exits if e.kind == "return" and e.value is not None and e.cond not in (True, False) and ("%s < 0" % ip) in gi.f_opaques(e.cond) and sym.entails(e.cond, neg)]
-    if not negs:
-        ctx.undecided("negative-index-from-whole-length", ctx.where(ti), "tuple_for_index: no exit taken exactly for a negative index (`%s < 0`) found" % ip)
-    for e in negs:
-        subs = [n for n in ast.walk(e.value) if isinstance(n, ast.Subscript) and any(isinstance(x, ast.Name) and x.id == ip for x in ast.walk(n.slice))]
-        bad_ = [n for n in subs if "self.length()" not in norm(n.slice)]
-        ctx.check(bool(subs) and not bad_, "negative-index-from-whole-length", ctx.where(ti, e.node),
-                  "tuple_for_index, for a negative index, reads position `%s`: the index is not counted back from self.length() (locked + unlocked); once a prefix is locked, -1 no longer names the tip" % (norm(bad_[0].slice)[:70] if bad_ else "?"),
-                  sample={"negative_index_position": norm(subs[0].slice)[:70] if subs else None})
-    # and hash_for_index reads the same table the same way: it is tuple_for_index(index)[0]
-    hi = ctx.func(BC, "BlockChain.hash_for_index")
-    wh = sym.walk(ctx, hi)
-    rets_ = [e for e in wh.exits if e.kind == "return" and e.value is not None]
-    for e in rets_:
-        t = norm(e.value)
-        if "tuple_for_index(" in t:
-            ctx.ok("hash-for-index-through-tuple", sample={"returns": t[:60]})
-        elif "_locked_chain" in t or "_longest" in t:
-            ctx.bad("hash-for-index-through-tuple", ctx.where(hi, e.node), "hash_for_index reads the chain tables itself (`%s`) instead of going through tuple_for_index: a second copy of the index arithmetic (negative indexes, the locked prefix) that does not follow the first" % t[:70])
+    # a negative index counts back from the tip of the WHOLE chain (locked prefix + unlocked part), so it can land in the locked
+    # prefix: some exit that reads self._locked_chain is reachable with `index < 0` (its path condition is satisfiable together
+    # with that test).  A reader that sends every negative index to the unlocked part wraps around once a prefix is locked.
+    def lands_in_locked(fi_):
+        ip_ = fi_.params()[1] if len(fi_.params()) > 1 else "index"
+        w_ = sym.walk(ctx, fi_, int_names=lambda t: True)
+        rets = [e for e in w_.exits if e.kind == "return" and e.value is not None]
+        if any("tuple_for_index(" in norm(e.value) for e in rets):
+            return "delegates", ip_
+        locked = [e for e in rets if "_locked_chain[" in norm(e.value)]
+        if not locked:
+            return "unread", ip_
+        neg_atoms = [a_ for a_ in sym.all_atoms(w_) if a_ == "%s < 0" % ip_]
+        if not neg_atoms:
+            return "unread", ip_
+        from rules.C09 import _sat
+        ok_ = any(e.cond is True or (e.cond is not False and _sat(gi.f_and(e.cond, ("op", neg_atoms[0])))) for e in locked)
+        return ("ok" if ok_ else "never"), ip_
+    for nm in ("BlockChain.tuple_for_index", "BlockChain.hash_for_index"):
+        g = ctx.func(BC, nm)
+        st_, ip_ = lands_in_locked(g)
+        if st_ in ("ok", "delegates"):
+            ctx.ok("negative-index-reaches-locked-prefix:%s" % nm.split(".")[-1], sample={"function": nm, "negative_index": "can land in the locked prefix" if st_ == "ok" else "through tuple_for_index"})
+        elif st_ == "never":
+            ctx.bad("negative-index-reaches-locked-prefix:%s" % nm.split(".")[-1], ctx.where(g), "%s reads self._locked_chain only on paths that exclude `%s < 0`: a negative index is always sent to the unlocked part, so once a prefix is locked an index that counts back into it wraps around (or -1 no longer names the tip)" % (nm, ip_))
         else:
-            ctx.undecided("hash-for-index-through-tuple", ctx.where(hi, e.node), "hash_for_index returns `%s`" % t[:60])
-
+            ctx.undecided("negative-index-reaches-locked-prefix:%s" % nm.split(".")[-1], ctx.where(g), "%s: no read of self._locked_chain / no test `%s < 0` in a form this rule reads" % (nm, ip_))
 
 # ------------------------------------------------------------------ C15.4
 def c15_4(ctx):
